@@ -103,6 +103,12 @@ pub fn replay(id: &str, doc: &Value) -> i32 {
                 }
             }
         }
+        "C17" if !case["long_run_step"].is_null() => {
+            println!("{}", serde_json::to_string_pretty(case).unwrap_or_default());
+            println!("re-run: ./check C17 quick (the run of refusals is repeated from a fresh process; the step number identifies where the leak appeared)");
+            1
+        }
+        "C18" if !case["slow_provider_ms"].is_null() => c18::replay_slow(case),
         "C13" => c13::replay(case),
         "C14" => c14::replay(case),
         "C15" if !case["c15"].is_null() => c15::replay(case),
